@@ -59,6 +59,8 @@ type Engine struct {
 	inlineOnly       map[string]bool
 	specErrors       map[string]bool
 	specFuncsDefined map[string]*definedSpecFunc
+	ranUnits         map[string]bool
+	usedLemmas       map[string]bool // induction lemmas assumed somewhere in this run: each must be a unit of the run
 	usedLibModels    map[string]bool
 	assumptions      map[string]bool
 
@@ -89,7 +91,7 @@ func newEngine(repo string) *Engine {
 		contracts: map[string]*ContractFile{}, ctByFn: map[*ssa.Function]*Contract{}, seqCtByFn: map[*ssa.Function]*Contract{}, fnByName: map[string]map[string]*ssa.Function{},
 		funcIDs: map[string]int{}, globalIDs: map[string]int{}, siteOcc: map[siteKey][]ssa.Instruction{}, loops: map[*ssa.Function]map[*ssa.BasicBlock]*loopInfo{},
 		unsupportedSeen: map[string]bool{}, unmodelled: map[string]bool{}, unmodelledIface: map[string]bool{}, inlined: map[string]bool{}, calledByContract: map[string]bool{}, execContracts: map[*Contract]bool{}, stableDone: map[string]bool{}, inlineOnly: map[string]bool{},
-		specErrors: map[string]bool{}, specFuncsDefined: map[string]*definedSpecFunc{}, usedLibModels: map[string]bool{}, assumptions: map[string]bool{},
+		specErrors: map[string]bool{}, specFuncsDefined: map[string]*definedSpecFunc{}, usedLemmas: map[string]bool{}, ranUnits: map[string]bool{}, usedLibModels: map[string]bool{}, assumptions: map[string]bool{},
 		solverTimeout: 10, workers: 16}
 }
 
@@ -313,6 +315,99 @@ func (e *Engine) specFunc(pkg *types.Package, name string) *SpecFunc {
 	return nil
 }
 
+// assumeSpecLemmas: when a (non-macro) spec function is applied on a path, the file-level axioms of its contract file and
+// the induction lemmas whose patterns mention it become available on that path (once per path). A lemma is never available
+// in its own proof nor in the proof of a lemma declared before it (no circular reasoning); every lemma used must be a
+// unit of the running check, otherwise it is reported as a contract error.
+func (e *Engine) assumeSpecLemmas(env *Env, sf *SpecFunc) {
+	if env.st == nil || sf.Macro {
+		return
+	}
+	cf, ok := e.contracts[sf.Pkg]
+	if !ok {
+		return
+	}
+	mark := func(key string) bool {
+		if env.st.elemsDone[key] != "" {
+			return false
+		}
+		nd := make(map[string]string, len(env.st.elemsDone)+1)
+		for k, v := range env.st.elemsDone {
+			nd[k] = v
+		}
+		nd[key] = "1"
+		env.st.elemsDone = nd
+		return true
+	}
+	pkg := e.typesPkg(sf.Pkg)
+	for i, ax := range cf.Axioms {
+		key := fmt.Sprintf("axiom:%s#%d", sf.Pkg, i)
+		if !mark(key) {
+			continue
+		}
+		aenv := &Env{eng: e, st: env.st, pkg: pkg, vars: map[string]Val{}, where: "axiom " + ax.Name, noHeap: true}
+		env.st.assume(aenv.evalBool(ax.Expr))
+		e.assumptions["axiom ["+ax.Name+"] of "+e.shortPkg(sf.Pkg)+" (assumed, not proved): "+ax.Text] = true
+	}
+	for _, lm := range cf.Lemmas {
+		if lm.Induction == "" {
+			continue
+		}
+		mentions := false
+		for _, p := range lm.Patterns {
+			if strings.Contains(p.String(), sf.Name+"(") {
+				mentions = true
+			}
+		}
+		if !mentions {
+			continue
+		}
+		if e.cur != nil && e.cur.Lemma != nil && e.cur.Lemma.Pkg == lm.Pkg && e.cur.Lemma.Index <= lm.Index {
+			continue
+		}
+		key := "lemma:" + lm.Pkg + "." + lm.Name
+		if !mark(key) {
+			continue
+		}
+		env.st.assume(e.lemmaAxiom(env.st, lm))
+		e.usedLemmas[e.shortPkg(lm.Pkg)+".lemma:"+lm.Name] = true
+	}
+}
+
+// lemmaAxiom: forall params :: requires ==> asserts, with the lemma's patterns as a multi-pattern.
+func (e *Engine) lemmaAxiom(st *State, lm *Lemma) string {
+	pkg := e.typesPkg(lm.Pkg)
+	env := &Env{eng: e, st: st, pkg: pkg, vars: map[string]Val{}, where: "lemma " + lm.Name + " (as axiom)", noHeap: true, quant: 1}
+	var binders []string
+	for _, p := range lm.Params {
+		t := env.typeOf(p.Type)
+		if t == nil {
+			env.errf("unknown type %q", p.Type)
+			t = types.Typ[types.Int]
+		}
+		sym := "q!l!" + sanitize(p.Name)
+		binders = append(binders, fmt.Sprintf("(%s %s)", sym, sortOf(t)))
+		env.vars[p.Name] = Val{S: sym, T: t}
+	}
+	var pre, post, pats []string
+	for _, rq := range lm.Requires {
+		pre = append(pre, env.evalBool(rq.Expr))
+	}
+	for _, s := range lm.Steps {
+		if s.Kind == "assert" {
+			post = append(post, env.evalBool(s.Expr))
+		}
+	}
+	for _, p := range lm.Patterns {
+		pats = append(pats, env.eval(p).S)
+	}
+	if len(pats) == 0 {
+		env.errf("induction lemma %s needs a pattern", lm.Name)
+		return "true"
+	}
+	return fmt.Sprintf("(forall (%s) (! (=> %s %s) :pattern (%s)))", strings.Join(binders, " "), and(pre...), and(post...), strings.Join(pats, " "))
+}
+
 type definedSpecFunc struct {
 	sym    string
 	ptypes []types.Type
@@ -424,6 +519,11 @@ func (e *Engine) allContractErrors() []string {
 	}
 	for _, cf := range e.contracts {
 		out = append(out, cf.Errors...)
+	}
+	for l := range e.usedLemmas {
+		if !e.ranUnits[l] {
+			out = append(out, fmt.Sprintf("induction lemma %s is assumed by a unit of this target but is not itself a unit of the target (add %q to the unit list)", l, l[strings.Index(l, ".")+1:]))
+		}
 	}
 	for m := range e.specErrors {
 		out = append(out, m)
